@@ -633,7 +633,7 @@ def _compute_expression_ir(
 
     ir["constant_names"] = [
         object_names.get(id(obj), f"c{j}")
-        for j, obj in enumerate(ufl.algorithms.analysis.extract_constants(expr))
+        for j, obj in enumerate(ufl.algorithms.analysis.extract_constants(original_expr))
     ]
 
     expr_name = object_names.get(id(original_expr), index)
